@@ -28,6 +28,13 @@ Check(r, idx) ==
     \* the load is not disturbed - a second Get joins it instead of invoking its loader
     \o (IF r.hang = 0 /\ r.overlap = 1 THEN <<F(idx, "C08.overlap_after_stale_eviction", <<r.ldruns, r.sc>>)>> ELSE <<>>)
     \o (IF r.hang = 1 /\ r.sc.op \in {"ld.staleevict.inv", "ld.staleevict.set"} THEN <<F(idx, "C08.hang", r.sc)>> ELSE <<>>)
+    \* C20: a Compute that found the entry expired (its function was told "not found", the value left with Expiration) records a miss, whatever a
+    \* reader stores into the replaced node afterwards (op sia-cmpgate: the reader's own lookup, before the deadline, is the one hit)
+    \o (IF r.hang = 0 /\ r.sc.op = "sia.cmpgate" /\ (r.hits # 1 \/ r.misses # 1)
+        THEN <<F(idx, "C20.compute_over_expired_entry_not_a_miss", <<r.hits, r.misses, r.sc>>)>> ELSE <<>>)
+    \* save / load with a target clock that moves between any two readings (op persist-step): "never" deadlines come back as "never"
+    \o (IF r.sc.op = "persist.step" /\ (r.hang = 1 \/ r.loaded # 8 \/ r.badref > 0 \/ r.badexp > 0)
+        THEN <<F(idx, "C19.never_deadline_not_restored", <<r.loaded, r.badref, r.badexp, r.sc>>)>> ELSE <<>>)
     \* many entries due in one sweep (op mass-x): one quiescent run removes and reports every one of them
     \o (IF r.hang = 0 /\ r.massn > 0 /\ (r.est # 0 \/ r.massexpired # r.massn) THEN <<F(idx, "C13.mass_expiration_incomplete", <<r.massn, r.est, r.massexpired, r.other, r.sc>>)>> ELSE <<>>)
     \* gated read race (ExpireRace.tla): the sweeper is parked between the wheel's test of the deadline and the removal while the
